@@ -468,13 +468,135 @@ func genPar(r *rng.R, tier string) corr.Case {
 	return corr.Case{Tag: "clone-parallel", Lines: lines}
 }
 
+var extremeKeys = []int{-9223372036854775808, -9223372036854775807, -4611686018427387904, -1 << 40, -5, -1, 0, 1, 7, 1 << 40,
+	4611686018427387904, 9223372036854775806, 9223372036854775807}
+
+// genIntExtreme: trees of the package's own item type btree.Int (so Int.Less is what orders them), with keys at and
+// around MinInt64 / MaxInt64, where a comparison by subtraction wraps.
+func genIntExtreme(r *rng.R, tier string) corr.Case {
+	d := r.PickInt(2, 2, 3, 4, 8)
+	lines := []string{"newi " + strconv.Itoa(d)}
+	key := func() int {
+		if r.Chance(2, 3) {
+			return extremeKeys[r.Intn(len(extremeKeys))] + r.PickInt(0, 0, 0, 1, -1)*boolInt(r.Chance(1, 2))
+		}
+		return r.Range(-30, 30)
+	}
+	handles := 1
+	n := r.Range(25, 70)
+	for i := 0; i < n; i++ {
+		h := r.Intn(handles)
+		k := key()
+		if k == -9223372036854775808+(-1) || k == 9223372036854775807+1 { // wrapped by the ±1 above
+			k = 0
+		}
+		switch r.Intn(12) {
+		case 0, 1, 2, 3, 4:
+			lines = append(lines, fmt.Sprintf("ins %d %d 0", h, k))
+		case 5, 6:
+			lines = append(lines, fmt.Sprintf("del %d %d", h, k))
+		case 7:
+			lines = append(lines, fmt.Sprintf("get %d %d", h, k), fmt.Sprintf("has %d %d", h, k))
+		case 8:
+			lines = append(lines, fmt.Sprintf("min %d", h), fmt.Sprintf("max %d", h), fmt.Sprintf("scan %d asc - - all", h))
+		case 9:
+			if handles < 3 {
+				lines = append(lines, fmt.Sprintf("clone %d", h))
+				handles++
+			} else {
+				lines = append(lines, fmt.Sprintf("delmin %d", h), fmt.Sprintf("delmax %d", h))
+			}
+		default:
+			name := scanNames[r.Intn(len(scanNames))]
+			lines = append(lines, scanLine(h, name, k, key(), r.Pick("all", "all", "ne:0", "lt:1", "gt:-1")))
+		}
+	}
+	for h := 0; h < handles; h++ {
+		lines = append(lines, fmt.Sprintf("chk %d", h), fmt.Sprintf("len %d", h), fmt.Sprintf("scan %d asc - - all", h), fmt.Sprintf("scan %d desc - - all", h))
+	}
+	return corr.Case{Tag: "int-extreme", Lines: lines}
+}
+
+func boolInt(b bool) int {
+	if b {
+		return 1
+	}
+	return 0
+}
+
+// genHugeDegree: degrees 33…128 (nodes of up to 255 items: element moves of more than 64 cells, searches in nodes of
+// more than 70 items), bulk fills in both directions, then work on existing keys.
+func genHugeDegree(r *rng.R, tier string) corr.Case {
+	d := r.PickInt(33, 40, 48, 64, 64, 100, 128)
+	K := r.PickInt(200, 300, 500, 800)
+	kind := "new "
+	if r.Chance(1, 4) {
+		kind = "newi "
+	}
+	lines := []string{kind + strconv.Itoa(d)}
+	if r.Chance(1, 2) {
+		lines = append(lines, fmt.Sprintf("fill 0 %d 1", K))
+	} else {
+		lines = append(lines, fmt.Sprintf("fill 0 1 %d", K))
+	}
+	lines = append(lines, "chk 0", "scan 0 asc - - all", "min 0", "max 0")
+	ver := 0
+	n := r.Range(40, 120)
+	for i := 0; i < n; i++ {
+		k := r.Range(1, K)
+		switch r.Intn(10) {
+		case 0, 1, 2:
+			ver++
+			v := ver
+			if kind == "newi " {
+				v = 0
+			}
+			lines = append(lines, fmt.Sprintf("ins 0 %d %d", k, v), "len 0")
+		case 3, 4:
+			lines = append(lines, fmt.Sprintf("get 0 %d", k), fmt.Sprintf("has 0 %d", k))
+		case 5, 6:
+			lines = append(lines, fmt.Sprintf("del 0 %d", k), "chk 0")
+		case 7:
+			lines = append(lines, scanLine(0, r.Pick("ascgt", "desclt", "ascge", "descle"), k, 0, "all"))
+		case 8:
+			lines = append(lines, fmt.Sprintf("fill 0 %d %d", k, k+r.Range(-90, 90)), "chk 0")
+		default:
+			lines = append(lines, "delmin 0", "delmax 0")
+		}
+	}
+	lines = append(lines, "chk 0", "len 0", "scan 0 desc - - all", "owned 0", "cons 0")
+	return corr.Case{Tag: "huge-degree", Lines: lines}
+}
+
+// genBigScan: scans that hand the callback (or return) many hundreds of items: a small-degree tree of 600…2000 keys
+// read through all ten entry points, and the wrapper with limits above and below the size.
+func genBigScan(r *rng.R, tier string) corr.Case {
+	N := r.PickInt(600, 800, 1100, 1500, 2000)
+	if r.Chance(1, 2) {
+		lines := []string{"new " + strconv.Itoa(r.PickInt(2, 3, 5, 16)), fmt.Sprintf("fill 0 1 %d", N), "chk 0"}
+		for i := 0; i < 8; i++ {
+			name := scanNames[r.Intn(len(scanNames))]
+			lines = append(lines, scanLine(0, name, r.Range(-2, N/3), r.Range(N/2, N+2), r.Pick("all", "all", "ne:"+strconv.Itoa(r.Range(520, N)))))
+		}
+		lines = append(lines, "scan 0 asc - - all", "scan 0 desc - - all", "len 0")
+		return corr.Case{Tag: "big-scan", Lines: lines}
+	}
+	lines := []string{"neww", fmt.Sprintf("wfill 1 %d", N), "wchk", "wlen"}
+	for i := 0; i < 8; i++ {
+		lim := r.PickInt(513, 600, 1000, 5000, N, N-1, N+1, 100000)
+		lines = append(lines, fmt.Sprintf("wscan %s %d %s %d", r.Pick("gte", "gt", "lte", "lt"), r.PickInt(-1, 0, 1, N/2, N, N+1), r.Pick("all", "all", "mod3", "odd"), lim))
+	}
+	lines = append(lines, "wscan gte 0 all 9223372036854775807", fmt.Sprintf("wscan lte %d all 9223372036854775807", N))
+	return corr.Case{Tag: "big-scan", Lines: lines}
+}
+
 // genMalformed: a valid prefix with ill-formed lines mixed in (both sides must answer bad-op and keep their state).
 func genMalformed(r *rng.R) corr.Case {
 	lines := []string{r.Pick("new 2", "new 3", "neww")}
 	bad := []string{"", "foo", "ins", "ins 0", "ins 0 x 1", "ins 0 1 -1", "ins 9 1 1", "del 0", "del 0 1 2", "scan 0 ascgt - - all",
 		"scan 0 asc 1 - all", "scan 0 nope 1 - all", "scan 0 ascgt 1 - maybe", "scan 0 ascrange 1 - all", "get 0 1234567890", "clone 7",
 		"clear 0 2", "owned 9", "cons x", "wins 1", "wscan ge 1 all 1", "wscan gte 1 all x", "wscan gte 1 some 1", "wupd 1 2", "new 1", "new 65", "new x", "neww 2",
-		"len", "chk -1", "wget 00000000001", "wdel --1", "has 0 1 1", "min 0 0", "wconc 5 1", "wconc 1 1000", "wrace 0 del 1 / del 1", "wrace 1 del 1 del 1", "wrace 1 upd 1 / del 1", "wrace x del 1 / del 1", "parend", "parbegin", "free 9", "wscan gte 1 all 99999999999999999999", "ins 0 9223372036854775808 1", "clone 0"}
+		"len", "chk -1", "wget 00000000001", "wdel --1", "has 0 1 1", "min 0 0", "wconc 5 1", "wconc 1 1000", "wrace 0 del 1 / del 1", "wrace 1 del 1 del 1", "wrace 1 upd 1 / del 1", "wrace x del 1 / del 1", "fill 0 1 99999", "fill 0 x 3", "wfill 1", "wfill 5 90000", "newi 1", "new 257", "parend", "parbegin", "free 9", "wscan gte 1 all 99999999999999999999", "ins 0 9223372036854775808 1", "clone 0"}
 	good := []string{"parbegin", "parend", "ins 0 1 1", "ins 0 2 2", "ins 0 3 3", "del 0 2", "scan 0 asc - - all", "len 0", "wins 1 1", "wins 2 2", "wdel 1", "wscan gte 0 all 5", "wlen", "get 0 1", "wget 2", "clone 0"}
 	n := r.Range(6, 20)
 	for i := 0; i < n; i++ {
@@ -554,6 +676,13 @@ func fixedCases() []corr.Case {
 		corr.Case{Tag: "fixed-regress", Lines: []string{"new 2", "ins 0 5 1", "scan 0 ascgt 5 - none", "scan 0 desclt 5 - none", "scan 0 descrange 5 4 none", "scan 0 descle 5 - all"}},
 		corr.Case{Tag: "fixed-regress", Lines: []string{"neww", "wins 3 31", "wins 4 30", "wins 5 24", "wins 7 23", "wscan lte 9 all 3", "wscan gt 2 mod3 1", "wscan lte 2 all 1000", "wupd 9 9 4", "wlen", "wscan gte 0 all 10"}},
 		corr.Case{Tag: "fixed-regress", Lines: []string{"new 2", "ins 0 1 1", "ins 0 2 2", "ins 0 3 3", "ins 0 4 4", "chk 0", "ins 0 5 5", "ins 0 6 6", "chk 0", "clone 0", "del 1 3", "chk 0", "chk 1", "scan 0 asc - - all", "del 0 1", "del 0 2", "chk 0", "len 0", "scan 1 asc - - all"}},
+		// red-team inputs: btree.Int at the ends of the range; degree 64 filled downwards; a scan of 2000 items through the wrapper
+		corr.Case{Tag: "fixed-redteam", Lines: []string{"newi 2", "ins 0 -9223372036854775808 0", "ins 0 -5 0", "ins 0 0 0", "ins 0 7 0", "ins 0 9223372036854775807 0",
+			"scan 0 asc - - all", "scan 0 desc - - all", "min 0", "max 0", "get 0 9223372036854775807", "get 0 -9223372036854775808",
+			"scan 0 ascgt -9223372036854775808 - all", "scan 0 desclt 9223372036854775807 - all", "del 0 -9223372036854775808", "chk 0", "scan 0 asc - - all"}},
+		corr.Case{Tag: "fixed-redteam", Lines: []string{"new 64", "fill 0 200 1", "chk 0", "len 0", "scan 0 asc - - all", "ins 0 127 5", "get 0 127", "get 0 200", "del 0 1", "chk 0"}},
+		corr.Case{Tag: "fixed-redteam", Lines: []string{"new 128", "fill 0 1 600", "chk 0", "ins 0 255 1", "ins 0 600 2", "len 0", "get 0 255", "scan 0 descle 300 - ne:100", "fill 0 700 550", "chk 0", "len 0"}},
+		corr.Case{Tag: "fixed-redteam", Lines: []string{"neww", "wfill 0 1999", "wlen", "wscan gte 0 all 5000", "wscan lt 2000 all 513", "wscan gt 1000 mod3 600", "wchk"}},
 		// "no limit" passed as the largest int (audit finding 1)
 		corr.Case{Tag: "fixed-limit", Lines: []string{"neww", "wins 1 1", "wins 2 2", "wins 3 3", "wins 4 4", "wins 5 5",
 			"wscan gte 0 all 9223372036854775807", "wscan lte 4 mod3 9223372036854775806", "wscan gt 2 all 17592186044417", "wlen", "wchk"}},
@@ -590,7 +719,21 @@ func spec() corr.Spec {
 					return genWrapper(r, tier)
 				case "direct":
 					return genDirect(r, tier, true)
+				case "int":
+					return genIntExtreme(r, tier)
+				case "huge":
+					return genHugeDegree(r, tier)
+				case "bigscan":
+					return genBigScan(r, tier)
 				}
+			}
+			switch y := r.Intn(40); {
+			case y == 0:
+				return genIntExtreme(r, tier)
+			case y == 1 && r.Chance(1, 2):
+				return genHugeDegree(r, tier)
+			case y == 2 && r.Chance(1, 3):
+				return genBigScan(r, tier)
 			}
 			switch x := r.Intn(25); {
 			case x == 24:
